@@ -48,7 +48,7 @@ var CMSMutationClasses = []string{
 	"content_edit", "content_replace", "content_remove", "content_add",
 	"etype_change", "outer_oid_change", "attr_contenttype_change",
 	"certs_drop", "certs_replace", "certs_add",
-	"issuer_change", "serial_change", "digest_attr_rewrite", "digest_attr_rewrite_and_content",
+	"issuer_change", "serial_change", "serial_sign_edit", "digest_attr_rewrite", "digest_attr_rewrite_and_content",
 	"sig_flip", "sig_by_other_key", "digestalg_change", "sigalg_change", "null_params_toggle",
 	"second_signer", "outer_strip", "outer_add", "attrs_retag_set", "attrs_remove_all", "attrs_empty",
 	"foreign_content_and_signer", "foreign_content_and_signer", "issuer_string_retag",
@@ -294,6 +294,23 @@ func MutateCMS(t *rapid.T, blob []byte, env MutEnv) ([]byte, string) {
 			return nil, na
 		}
 		s.Serial.Content[len(s.Serial.Content)-1] ^= byte(rapid.IntRange(1, 255).Draw(t, "sx"))
+	case "serial_sign_edit":
+		// the same octets read with the other sign, or the same number written with another length
+		if s.Serial == nil || len(s.Serial.Content) == 0 {
+			return nil, na
+		}
+		c := s.Serial.Content
+		switch rapid.IntRange(0, 2).Draw(t, "how") {
+		case 0:
+			if len(c) < 2 || c[0] != 0 {
+				return nil, na
+			}
+			s.Serial.Content = append([]byte{}, c[1:]...) // drops the sign octet: now a negative number
+		case 1:
+			s.Serial.Content = append([]byte{0x00}, c...)
+		default:
+			s.Serial.Content = append([]byte{0xff}, c...)
+		}
 	case "digest_attr_rewrite", "digest_attr_rewrite_and_content":
 		vals := s.AttrValues(cms.OIDMessageDigest)
 		if len(vals) == 0 {
